@@ -38,8 +38,12 @@ ASSUMPTIONS = ["process-based kind: parent and spawned child are simulated proce
                "cancellation is injected into the group task only (as SyncGroup users do)"]
 
 
-def simulate(kind, values, cancel_step=None, cancel_time=None):
-    """one simulation of one configuration; returns a dict of observations"""
+def simulate(kind, values, cancel_step=None, cancel_time=None, silent=False):
+    """one simulation of one configuration; returns a dict of observations
+
+    silent: at the moment of the cancellation a terminal the group only reads (if there
+    is one) stops answering - unplugged or switched off - so that nothing the clean-up does
+    may depend on it"""
     from ebpfcat.ebpfcat import FastEtherCat, FastSyncGroup, SyncGroup
     from ebpfcat.ethercat import EtherCat
 
@@ -54,12 +58,25 @@ def simulate(kind, values, cancel_step=None, cancel_time=None):
     for st in sims:
         maxd = tape.draw("c24/al-maxdelay", 3)
         st.al_delay = lambda frm, to, maxd=maxd: tape.draw("c24/al-delay", maxd + 1)
+        # what an earlier master (or a watchdog trip) left behind: any state, maybe an error
+        st.al_state = [1, 1, 1, 2, 4, 8][tape.draw("c24/al-start", 6)]
+        st.al_error = tape.chance("c24/al-start-error", 20)
     links = wl.gen_links(tape, specs, "c24", max_vars=2)
     if not links:
         links = [dict(term=0, sm="in" if specs[0]["in_sz"] else "out", pos=0, size="B")]
     devices = build_devices(tape, terms, links, "c24")
     obs = dict(steps=0, cycles=0, outcome=None, ref_time=None, started=False)
     cfg_draws = len(tape.values)
+    rw_terms = {ln["term"] for ln in links if ln["sm"] == "out"}
+    readonly = [k for k in range(len(specs)) if k not in rw_terms
+                and any(ln["term"] == k for ln in links)]
+
+    def go_silent():
+        if silent and readonly:
+            k = readonly[0]
+            sims[k].skip_datagram = lambda d: True
+            obs["silent_terminal"] = k
+            world.count("fault/read-only-terminal-silent-at-cancel")
 
     async def main(loop):
         await ec.connect()
@@ -84,12 +101,14 @@ def simulate(kind, values, cancel_step=None, cancel_time=None):
                 if cancel_step is not None and obs["steps"] == cancel_step:
                     obs["cancel_injected_at"] = loop.time() - t0
                     obs["started"] = any(st.al_log for st in sims)
+                    go_silent()
                     t.cancel()
         loop.step_hook = hook
         if cancel_time is not None:
             def cancel_now():
                 obs["cancel_injected_at"] = loop.time() - t0
                 obs["started"] = any(st.al_log for st in sims)
+                go_silent()
                 task.cancel()
             loop.call_later(cancel_time, cancel_now)
         done, pending = await asyncio.wait([task], timeout=2.0)
@@ -334,6 +353,24 @@ def run(tape, scenario):
         r = judge(kind, obs, f"cancel before step {n} of {S}")
         if r is not None:
             violations.append({"rule": r[0], "params": r[2], "detail": r[1]})
+    if not violations and kind != "process" and S:
+        # cancellation together with a fault: a terminal the group only reads has stopped
+        # answering when the cancellation arrives (6 drawn steps per configuration)
+        for j in range(6):
+            n = 1 + tape.draw("c24/silent-cancel-step", S)
+            obs = sim(kind, values, cancel_step=n, silent=True)
+            if "silent_terminal" not in obs:
+                break
+            stats["c24/simulations"] += 1
+            stats["c24/cancels-with-silent-terminal"] = \
+                stats.get("c24/cancels-with-silent-terminal", 0) + 1
+            sim_time += obs["sim_time"]
+            r = judge(kind, obs, f"cancel before step {n} of {S} with read-only terminal "
+                                 f"{obs['silent_terminal']} silent from then on")
+            if r is not None:
+                r[2]["silent"] = True
+                violations.append({"rule": r[0], "params": r[2], "detail": r[1]})
+                break
     if not violations and ref.get("ref_time"):
         for j in range(4 if kind == "process" else 8):
             t = ref["ref_time"] * (1 + tape.draw("c24/cancel-time", 1000)) / 1000.0
